@@ -7,11 +7,15 @@ export GOFLAGS=-mod=mod GOPROXY=off GOSUMDB=off GOTOOLCHAIN=local GOMODCACHE=/ro
 export TMPDIR="$wt.tmp"; mkdir -p "$TMPDIR"
 cd "$wt" || exit 3
 git checkout -q -- . && git clean -fdq
+# DEMO_DEST: space-separated package dirs (relative to the repo) the demo test file belongs to
+# (default checkers). DEMO_SH=1: the demo is demo/run.sh <repo>.
+dests="${DEMO_DEST:-checkers}"
 install_demo() {
   demo_pkgs=""; demo_run=""
+  if [ -n "$DEMO_SH" ]; then demo_pkgs="sh"; return; fi
   for f in "$out"/demo/*_test.go; do
     [ -e "$f" ] || continue
-    cp "$f" checkers/
+    for d in $dests; do cp "$f" "$d/"; done
     names=$(grep -oE '^func (Test\w+)' "$f" | awk '{print $2}' | paste -sd'|')
     demo_run="$names"
     demo_pkgs="./checkers/"
@@ -23,7 +27,9 @@ install_demo() {
   done
 }
 run_demo() {
-  if [ -n "$demo_run" ]; then go test -vet=off -count=1 -run "^($demo_run)\$" ./checkers/ >"$TMPDIR/demo.log" 2>&1; rc=$?; else rc=0; fi
+  if [ -n "$DEMO_SH" ]; then bash "$out/demo/${DEMO_SH_NAME:-run.sh}" "$wt" >"$TMPDIR/demo.log" 2>&1; return $?; fi
+  rc=0
+  if [ -n "$demo_run" ]; then for d in $dests; do go test -vet=off -count=1 -run "^($demo_run)\$" "./$d/" >>"$TMPDIR/demo.log" 2>&1 || rc=1; done; fi
   for p in $demo_pkgs; do [ "$p" = "./checkers/" ] && continue; go test -vet=off -count=1 "$p" >>"$TMPDIR/demo.log" 2>&1 || rc=1; done
   return $rc
 }
